@@ -26,6 +26,8 @@ pub enum Shape {
     PlainVal,
     /// neither key nor value has drop glue: `needs_drop::<(K, V)>()` is false
     PlainBoth,
+    /// key and value aligned to 64 bytes (padding inside every slot)
+    Aligned,
 }
 
 
